@@ -109,3 +109,21 @@ Theorem C01_es_iterate : forall sp cons fuel rrp, dims_ok sp -> forall mut curs 
   es_iterate sp cons fuel rrp mut curs t = Ok (p, t', c) -> emit_ok sp cons p /\ is_suffix t' t.
 Proof. exact es_iterate_ok. Qed.
 Print Assumptions C01_es_iterate.
+
+(* genetic algorithm: the crossover branch serves positions from the offspring queue; every position in the queue went through the
+   constraint loop when it was created, so whatever is popped is in the box and feasible, and the refilled queue again holds only such
+   positions (random.sample with too few fittest parents is Err ValueError: finding F-D9a of C03) *)
+Theorem C01_ga_iterate : forall sp cons fuel rrp, dims_ok sp -> forall mut n_parents n_off news queue t p t' c queue',
+  Forall (in_box sp) news -> Forall (emit_ok sp cons) queue -> nan_free t ->
+  ga_iterate sp cons fuel rrp mut n_parents n_off news queue t = Ok (p, t', c, queue') ->
+  emit_ok sp cons p /\ Forall (emit_ok sp cons) queue' /\ is_suffix t' t.
+Proof. exact ga_iterate_ok. Qed.
+Print Assumptions C01_ga_iterate.
+
+(* pattern search: the head of the pattern list (positions produced through conv2pos, hence in the box) is returned when feasible,
+   otherwise replaced by move_climb's feasible neighbour; a random restart leaves the list alone *)
+Theorem C01_pattern_iterate : forall sp cons fuel rrp, dims_ok sp -> forall queue t p t' c queue', Forall (in_box sp) queue -> nan_free t ->
+  pattern_iterate sp cons fuel rrp queue t = Ok (p, t', c, queue') ->
+  emit_ok sp cons p /\ Forall (in_box sp) queue' /\ is_suffix t' t /\ 0 < c.
+Proof. exact pattern_iterate_ok. Qed.
+Print Assumptions C01_pattern_iterate.
